@@ -466,6 +466,22 @@ func (v *Env) ident(name string) Value {
 		if val, ok := v.e.lets[name]; ok {
 			return val
 		}
+		// x$head: the value variable x had on entry to the current iteration of the enclosing
+		// loop (its phi at the loop header)
+		if strings.HasSuffix(name, "$head") && v.block != nil {
+			base := strings.TrimSuffix(name, "$head")
+			for blk := v.block; blk != nil; blk = blk.Idom() {
+				if v.e.headers[blk] == nil {
+					continue
+				}
+				for _, ins := range blk.Instrs {
+					if phi, ok := ins.(*ssa.Phi); ok && phi.Comment == base {
+						return v.e.val(phi)
+					}
+				}
+			}
+			v.fail("%s: no enclosing loop carries a variable %s", name, base)
+		}
 		// at a program point (loop header, call site) a name denotes the variable's current
 		// value; inside old(...) a parameter name denotes its entry value
 		if v.block != nil && !v.inOld {
@@ -1083,6 +1099,12 @@ func (v *Env) call(x *SExpr) Value {
 				v.fail("fresh needs a slice")
 			}
 			return Scalar{And(Le(v.old.allocTop, a.Ptr), Lt(a.Ptr, ConstI(staticBase, Ref)))}
+		case "freshobj": // freshobj(p): the object p points to was allocated during the call
+			a, ok := v.eval(args[0]).(PtrV)
+			if !ok {
+				v.fail("freshobj needs a pointer")
+			}
+			return Scalar{Le(v.old.refTop, a.Addr)}
 		case "ite":
 			c := v.withNeg(func() *Term { return v.evalBool(args[0]) })
 			a, b := v.unify(v.eval(args[1]), v.eval(args[2]))
